@@ -6,12 +6,15 @@
 //! (b) printed, together with the inputs, as a Gallina `case` for the model in coq/C13.
 mod classes;
 mod gen;
+mod real;
 
 use std::collections::{HashMap, HashSet};
 use std::io::{Cursor, Write};
 use std::panic::AssertUnwindSafe;
+use std::path::Path;
 use classes::*;
-use dukebox::storage::{BasicFileAttributes, ClassRepr, Jar, JarEntry, JarEntryEnum, OpenedJar, ParsedJar, ParsedJarEntry, UnnamedMemJar};
+use dukebox::storage::{BasicFileAttributes, ClassRepr, FileJar, Jar, JarEntry, JarEntryEnum, NamedMemJar, OpenedJar, ParsedJar, ParsedJarEntry, UnnamedMemJar};
+use fbh::classfile::facts::ClassFacts;
 use fbh::gal::*;
 use fbh::prng::Rng;
 use fbh::report::{guarded, Report};
@@ -23,31 +26,58 @@ pub const MANIFEST_NAME: &str = "META-INF/MANIFEST.MF";
 pub const MANIFEST_BYTES: &[u8] = b"Manifest-Version: 1.0\nMain-Class: net.minecraft.client.Main\n";
 
 // ---------------------------------------------------------------- abstract jars
-#[derive(Clone, Debug, PartialEq)]
+#[derive(Clone, PartialEq)]
 pub enum AContent { Dir, Other(Vec<u8>), Class(AClass), RawClass(Vec<u8>) }
+/// long byte strings are shown by length and hash; `AEntry::origin` says how to make them again
+fn show_bytes(d: &[u8]) -> String { if d.len() <= 64 { format!("{d:?}") } else { format!("<{} bytes, fnv64 {:016x}>", d.len(), fnv64(d)) } }
+pub fn fnv64(d: &[u8]) -> u64 { d.iter().fold(0xcbf2_9ce4_8422_2325u64, |h, &b| (h ^ b as u64).wrapping_mul(0x0000_0100_0000_01b3)) }
+impl std::fmt::Debug for AContent {
+	fn fmt(&self, f: &mut std::fmt::Formatter<'_>) -> std::fmt::Result {
+		match self {
+			AContent::Dir => write!(f, "Dir"),
+			AContent::Other(d) => write!(f, "Other({})", show_bytes(d)),
+			AContent::RawClass(d) => write!(f, "RawClass({})", show_bytes(d)),
+			AContent::Class(c) => write!(f, "Class({c:?})"),
+		}
+	}
+}
 #[derive(Clone, Debug, PartialEq)]
 pub struct AEntry {
 	pub name: String,
 	/// year, month, day, hour, minute, second (even) of the zip time stamp
 	pub time: (u16, u8, u8, u8, u8, u8),
 	pub content: AContent,
-	/// ParsedJar route only: hand the class over as ClassRepr::Parsed (else ClassRepr::Vec)
+	/// ParsedJar only: hand the class over as ClassRepr::Parsed (else ClassRepr::Vec)
 	pub parsed_repr: bool,
+	/// zip archives only: the entry is DEFLATE-compressed (else stored)
+	pub deflate: bool,
+	/// how the bytes of a long `Other` / `RawClass` content are made (empty for literal contents)
+	pub origin: String,
+}
+impl AEntry {
+	pub fn new(name: &str, time: (u16, u8, u8, u8, u8, u8), content: AContent) -> AEntry { AEntry { name: name.to_owned(), time, content, parsed_repr: false, deflate: false, origin: String::new() } }
 }
 pub type AJar = Vec<AEntry>;
+/// the four implementations of dukebox::storage::Jar; the first three are zip archives read through
+/// `impl JarEntry for ZipFile`, the last one goes through `impl JarEntry for (&String, &ParsedJarEntry)`
 #[derive(Clone, Copy, Debug, PartialEq)]
-pub enum Route { Zip, Parsed }
+pub enum JarKind { Unnamed, Named, File, Parsed }
+#[derive(Clone, Copy, Debug, PartialEq)]
+pub struct Route { pub c: JarKind, pub s: JarKind }
+impl Route {
+	pub fn name(self) -> String { let n = |k| match k { JarKind::Unnamed => "mem", JarKind::Named => "named", JarKind::File => "file", JarKind::Parsed => "parsed" }; if self.c == self.s { n(self.c).to_owned() } else { format!("{}+{}", n(self.c), n(self.s)) } }
+}
 
 // what the model is told about an input entry
 #[derive(Clone, Debug)]
-pub enum PContent { Dir, Other(Vec<u8>), Class { parsed_repr: bool, raw: u64, bytes: Vec<u8>, parsed: Option<PClass> } }
+pub enum PContent { Dir, Other(Vec<u8>), Class { parsed_repr: bool, raw: u64, bytes: Vec<u8>, parsed: Option<PClass>, facts: Option<Box<ClassFacts>> } }
 #[derive(Clone, Debug)]
 pub struct PEntry { pub name: String, pub attr: u64, pub content: PContent }
 
 #[derive(Clone, Debug)]
 pub enum OContent { Dir, Other(Vec<u8>), Vec { raw: u64, bytes: Vec<u8> }, Parsed(PClass) }
 #[derive(Clone, Debug)]
-pub struct OEntry { pub name: String, pub attr: u64, pub content: OContent }
+pub struct OEntry { pub name: String, pub attr: u64, pub content: OContent, /** facts of a ClassRepr::Parsed result's tree */ pub facts: Option<Box<ClassFacts>> }
 #[derive(Clone, Debug)]
 pub enum Outcome { Ok(Vec<OEntry>), Fail, Panic }
 
@@ -62,7 +92,7 @@ fn class_bytes(c: &AClass) -> Result<Vec<u8>, String> {
 fn build_zip(j: &AJar) -> anyhow::Result<Vec<u8>> {
 	let mut w = ZipWriter::new(Cursor::new(Vec::new()));
 	for e in j {
-		let opts = FileOptions::<()>::default().compression_method(CompressionMethod::Stored).last_modified_time(dt(e.time));
+		let opts = FileOptions::<()>::default().compression_method(if e.deflate { CompressionMethod::Deflated } else { CompressionMethod::Stored }).last_modified_time(dt(e.time));
 		match &e.content {
 			AContent::Dir => w.add_directory(e.name.as_str(), opts)?,
 			AContent::Other(d) | AContent::RawClass(d) => { w.start_file(e.name.as_str(), opts)?; w.write_all(d)?; }
@@ -89,23 +119,25 @@ fn build_parsed(j: &AJar) -> anyhow::Result<ParsedJar<ClassRepr, Vec<u8>>> {
 
 /// The model's view of an input jar. `attrs` are the attributes the implementation itself reads
 /// from the built jar (zip route) resp. the ones put into the ParsedJar.
-fn prepare(j: &AJar, route: Route, attrs: &[BasicFileAttributes], it: &mut Interner) -> Result<Vec<PEntry>, String> {
+fn prepare(j: &AJar, kind: JarKind, attrs: &[BasicFileAttributes], it: &mut Interner) -> Result<Vec<PEntry>, String> {
 	let mut out = vec![];
 	for (e, a) in j.iter().zip(attrs) {
 		let content = match &e.content {
 			AContent::Dir => PContent::Dir,
 			AContent::Other(d) => PContent::Other(d.clone()),
 			AContent::Class(_) | AContent::RawClass(_) => {
-				let parsed_repr = route == Route::Parsed && e.parsed_repr && matches!(e.content, AContent::Class(_));
+				let parsed_repr = kind == JarKind::Parsed && e.parsed_repr && matches!(e.content, AContent::Class(_));
 				let bytes = match &e.content { AContent::Class(c) => class_bytes(c)?, AContent::RawClass(d) => d.clone(), _ => unreachable!() };
-				let parsed = if parsed_repr {
-					match &e.content { AContent::Class(c) => Some(project(&to_duke(c), it)), _ => None }
+				let tree = if parsed_repr {
+					match &e.content { AContent::Class(c) => Some(to_duke(c)), _ => None }
 				} else {
 					// what `read()` yields on these bytes; a panic of the reader is C16's business, not ours
 					let b = bytes.clone();
-					match guarded(move || duke::read_class(&mut Cursor::new(b)).ok()) { Ok(x) => x.map(|k| project(&k, it)), Err(p) => return Err(format!("reader panicked: {p}")) }
+					match guarded(move || duke::read_class(&mut Cursor::new(b)).ok()) { Ok(x) => x, Err(p) => return Err(format!("reader panicked: {p}")) }
 				};
-				PContent::Class { parsed_repr, raw: it.id(&bytes), bytes, parsed }
+				let parsed = tree.as_ref().map(|k| project(k, it));
+				let facts = tree.as_ref().and_then(facts_of_tree);
+				PContent::Class { parsed_repr, raw: it.id(&bytes), bytes, parsed, facts }
 			}
 		};
 		out.push(PEntry { name: e.name.clone(), attr: it.text(format!("{a:?}")), content });
@@ -113,9 +145,15 @@ fn prepare(j: &AJar, route: Route, attrs: &[BasicFileAttributes], it: &mut Inter
 	Ok(out)
 }
 
+/// the facts (fbh::classfile) of a duke tree; None if the projection itself panics (not a finding of C13)
+fn facts_of_tree(k: &duke::tree::class::ClassFile) -> Option<Box<ClassFacts>> {
+	guarded(AssertUnwindSafe(|| fbh::classfile::facts::facts_from_duke(k))).ok().map(Box::new)
+}
+
 fn project_out(j: &ParsedJar<ClassRepr, Vec<u8>>, it: &mut Interner) -> Vec<OEntry> {
 	j.entries.iter().map(|(name, e)| OEntry {
 		name: name.clone(), attr: it.text(format!("{:?}", e.attr)),
+		facts: match &e.content { JarEntryEnum::Class(ClassRepr::Parsed { class }) => facts_of_tree(class), _ => None },
 		content: match &e.content {
 			JarEntryEnum::Dir => OContent::Dir,
 			JarEntryEnum::Other(d) => OContent::Other(d.clone()),
